@@ -67,8 +67,11 @@ pub fn normalise(msg: &str) -> String {
 
 fn short_file(file: &str) -> String {
     // /repo/noodles-x/src/... → noodles-x/src/...; registry paths → crate dir/...
-    if let Some(rest) = file.strip_prefix("/repo/") {
-        return rest.to_string();
+    if !file.contains("/registry/") {
+        // any checkout of the repository: …/noodles-x/src/... → noodles-x/src/...
+        if let Some(i) = file.find("/noodles-") {
+            return file[i + 1..].to_string();
+        }
     }
     if let Some(i) = file.find("/registry/src/") {
         let rest = &file[i + "/registry/src/".len()..];
